@@ -1419,9 +1419,10 @@ func main() {
 			decisionFunc("driver/netconf/read.go", "Driver.read", "getNetconfPatterns"))
 		fmt.Fprintf(&sw, "(* transport/standard.go Standard.openSession, Standard.Close *)\nDefinition std_open_session_code : list dstmt :=\n  %s.\nDefinition std_close_code : list dstmt :=\n  %s.\n",
 			decisionFunc("transport/standard.go", "Standard.openSession"), decisionFunc("transport/standard.go", "Standard.Close"))
-		fmt.Fprintf(&sw, "(* response/netconf.go NetconfResponse.record1dot1Chunks, record1dot1, Record *)\nDefinition record_chunks_code : list dstmt :=\n  %s.\nDefinition record11_code : list dstmt :=\n  %s.\nDefinition nc_record_code : list dstmt :=\n  %s.\n",
+		fmt.Fprintf(&sw, "(* response/netconf.go NetconfResponse.record1dot1Chunks, record1dot1, Record *)\nDefinition record_chunks_code : list dstmt :=\n  %s.\nDefinition record11_code : list dstmt :=\n  %s.\nDefinition nc_record_code : list dstmt :=\n  %s.\nDefinition record10_code : list dstmt :=\n  %s.\nDefinition record_rpc_errors_code : list dstmt :=\n  %s.\n",
 			decisionFunc("response/netconf.go", "NetconfResponse.record1dot1Chunks"), decisionFunc("response/netconf.go", "NetconfResponse.record1dot1"),
-			decisionFunc("response/netconf.go", "NetconfResponse.Record"))
+			decisionFunc("response/netconf.go", "NetconfResponse.Record"), decisionFunc("response/netconf.go", "NetconfResponse.record1dot0"),
+			decisionFunc("response/netconf.go", "NetconfResponse.recordRPCErrors", "getNetconfPatterns"))
 		{
 			var ru []string
 			for _, fn := range []string{"Channel.ReadUntilFuzzy", "Channel.ReadUntilExplicit", "Channel.ReadUntilPrompt", "Channel.ReadUntilAnyPrompt"} {
